@@ -398,6 +398,11 @@ class Arr:
         for k in ('const', 'isometry'):
             if k in self.tags:
                 t[k] = self.tags[k]
+        from . import mx as _mx
+        if 'mx' in self.tags:
+            t['mx'] = _mx.C(self.tags['mx'])
+        if 'mx_unf' in self.tags:
+            t['mx_unf'] = (_mx.C(self.tags['mx_unf'][0]), self.tags['mx_unf'][1])
         return Arr(self.shape, legs_conj(self.legs), self.dt, self.buf if self.dt != 'complex' else None, t, 'conj', parents=(self,))
 
     conjugate = conj
@@ -418,6 +423,10 @@ class Arr:
         if 'const' in self.tags and self.tags['const'] in ('eye', 'zeros', 'ones'):
             t['const'] = self.tags['const']
         t['perm'] = tuple(perm)
+        if self.ndim == 2 and perm == [1, 0]:
+            from . import mx as _mx
+            m_ = _mx.of(self)
+            t['mx'] = _mx.T(m_)
         return self.view([self.shape[p] for p in perm], [self.legs[p] for p in perm], t, origin='transpose')
 
     def reshape(self, *shape, **kw):
@@ -479,10 +488,15 @@ class Arr:
             return NotImplemented
         if name in ('truediv',) and dt == 'int':
             dt = 'real'
+        if name == 'truediv' and rev and isinstance(o, (int, float)) and o == 1 and 'mx' in self.tags and len(self.tags['mx']) == 1 and self.tags['mx'][0][0] in ('S', 'Sinv'):
+            f_ = self.tags['mx'][0]
+            tags['mx'] = ((('Sinv' if f_[0] == 'S' else 'S'), f_[1], '', f_[3]),)          # 1 / s
         if name in ('lt', 'gt', 'le', 'ge', 'eq', 'ne'):
             dt = 'bool'
         r = Arr(shape, legs, dt, None, tags, name)
         r.tags['expr'] = (name, (o, self) if rev else (self, o))
+        if name in ('mul', 'truediv') and isinstance(o, Arr):
+            diag_scaling(r, self, o, name, rev)
         if 'arange' in self.tags and name in ('add', 'sub') and isinstance(o, (int, Size)) and not isinstance(o, bool) and not (name == 'sub' and rev):
             lo, hi = self.tags['arange']          # an index vector c + arange(n) stays an index vector
             off = o if name == 'add' else -o
@@ -683,6 +697,28 @@ def reshape(a, shape):
         tags['const'] = 'eye-reshaped'
         tags['eye_legs'] = a.legs
     tags['is_reshape'] = True
+    # matrix expression of the unfolding: a C-order reshape keeps the row-major flattening, so the matricisation (first axes | rest) with a given number
+    # of rows is one and the same matrix for every shape it is written in
+    from . import mx as _mx
+    root = a
+    while root.tags.get('is_reshape') and root.parents:
+        root = root.parents[0]
+    known = None
+    if a.ndim == 2 and 'mx' in a.tags:
+        known = (a.tags['mx'], a.shape[0])
+    elif 'mx_unf' in a.tags:
+        known = a.tags['mx_unf']
+    if a.ndim == 1 and 'mx' in a.tags and sum(1 for x in shape if not is_one(x)) <= 1:
+        tags['mx'] = a.tags['mx']                   # s.reshape(k, 1, 1, 1): still the diagonal factor
+    elif len(shape) == 2:
+        if known is not None and sz_eq(known[1], shape[0]):
+            tags['mx'] = known[0]
+        else:
+            CTX.keep.append(root)
+            tags['mx'] = _mx.src(('unf', id(root), str(Size.of(shape[0], CTX.atoms))))
+    elif known is not None:
+        tags['mx_unf'] = known
+    tags['reshape_root'] = root
     r = a.view(shape, out, tags)
     return r
 
@@ -1013,6 +1049,44 @@ def getitem(a, idx):
             tags['orth'] = 'RO'
     r = Arr(shape, legs, a.dt, a.buf if view else None, tags, 'getitem')
     r.tags['sel_of'] = (a, tuple(sel))
+    m_ = a.tags.get('mx')
+    if m_ is not None and len(m_) == 1 and a.ndim in (1, 2) and not any(x is None for x in idx):
+        k_, u_, op_, s_ = m_[0]
+        # which axis is the shared (bond) index of the factor
+        bond_ax = {'U': 1, 'Q': 1, 'Rr': 1, 'V': 0, 'R': 0, 'Qr': 0}.get(k_) if a.ndim == 2 else 0
+        if op_ in ('T', 'H') and a.ndim == 2 and bond_ax is not None:
+            bond_ax = 1 - bond_ax
+        if bond_ax is not None and len(sel) == a.ndim:
+            other_all = all(sel[x] == ('all',) for x in range(a.ndim) if x != bond_ax)
+            bs = sel[bond_ax]
+            if other_all and bs == ('all',):
+                r.tags['mx'] = m_
+            elif other_all and bs[0] in ('range', 'idx'):
+                key = ('range', str(bs[1]), str(bs[2])) if bs[0] == 'range' else tuple(str(x) for x in bs)
+                if s_ is not None:
+                    key = ('then', s_, key)             # a selection of a selection (threshold cut followed by the rank cap)
+                r.tags['mx'] = ((k_, u_, op_, key),)
+    elif m_ is not None and len(m_) > 1 and a.ndim == 2 and len(sel) == 2 and not any(x is None for x in idx):
+        # column selection of a product acts on its last factor, row selection on its first
+        def col_axis_is_bond(f):
+            k_, _, op_, _ = f
+            bx = {'U': 1, 'Q': 1, 'Rr': 1, 'V': 0, 'R': 0, 'Qr': 0}.get(k_)
+            if bx is None:
+                return None
+            return (1 - bx if op_ in ('T', 'H') else bx)
+        def with_sel(f, bs):
+            key = ('range', str(bs[1]), str(bs[2])) if bs[0] == 'range' else tuple(str(x) for x in bs)
+            if f[3] is not None:
+                key = ('then', f[3], key)
+            return (f[0], f[1], f[2], key)
+        if sel[0] == ('all',) and sel[1][0] in ('range', 'idx') and col_axis_is_bond(m_[-1]) == 1:
+            r.tags['mx'] = tuple(m_[:-1]) + (with_sel(m_[-1], sel[1]),)
+        elif sel[1] == ('all',) and sel[0][0] in ('range', 'idx') and col_axis_is_bond(m_[0]) == 0:
+            r.tags['mx'] = (with_sel(m_[0], sel[0]),) + tuple(m_[1:])
+        elif sel[0] == ('all',) and sel[1] == ('all',):
+            r.tags['mx'] = m_
+    elif m_ is not None and a.ndim == 1 and any(x is None for x in idx) and all(x is None or (isinstance(x, slice) and x == slice(None)) for x in idx):
+        r.tags['mx'] = m_                      # s[:, None] / s[None, :]: still the diagonal factor, the shape says on which side it acts
     return r
 
 
@@ -1240,12 +1314,92 @@ def tensordot(a, b, axes=2):
     rb = [i for i in range(b.ndim) if i not in ax_b]
     r = Arr([a.shape[i] for i in ra] + [b.shape[i] for i in rb], [a.legs[i] for i in ra] + [b.legs[i] for i in rb], join_dtype(a.dt, b.dt), None, {}, 'tensordot')
     orth_after_contract(r, a, b, ax_a, ax_b, ra, rb)
+    mx_after_contract(r, a, b, ax_a, ax_b)
     if 'opalg' in a.tags and 'opalg' in b.tags:
         if not ax_a:
             r.tags['opalg'] = a.tags['opalg'].outer(b.tags['opalg'])
         elif a.ndim == 2 and b.ndim == 2 and ax_a == [1] and ax_b == [0]:
             r.tags['opalg'] = a.tags['opalg'].dot(b.tags['opalg'])
     return r
+
+
+def diag_scaling(r, x, o, name, rev):
+    """X * s, s[:, None] * Y, X / s, core * s[:, None, None, None] ...: multiplication by diag(s) (or its inverse) from the side the broadcast shape selects"""
+    from . import mx as _mx
+    a_, b_ = (o, x) if rev else (x, o)              # the expression is  a_ (op) b_
+    for big, small, small_is_right in ((a_, b_, True), (b_, a_, False)):
+        if name == 'truediv' and not small_is_right:
+            continue                                    # s / X is not a scaling
+        md = small.tags.get('mx')
+        if md is None or len(md) != 1 or md[0][0] not in ('S', 'Sinv') or big.ndim < 2:
+            continue
+        if name == 'truediv':
+            md = ((('Sinv' if md[0][0] == 'S' else 'S'), md[0][1], '', md[0][3]),)
+        nz = [k for k, n_ in enumerate(small.shape) if not is_one(n_)]
+        if len(nz) > 1:
+            continue
+        if nz:
+            ax = nz[0] + (big.ndim - small.ndim)        # the axis of `big` the diagonal acts on
+        elif is_one(big.shape[-1]):
+            ax = big.ndim - 1                           # a 1 x 1 diagonal factor (rank-1 bond)
+        elif is_one(big.shape[0]):
+            ax = 0
+        else:
+            continue
+        if ax == big.ndim - 1:
+            rows = sz_prod(big.shape[:-1])
+            base = unfolding_mx(big, rows)
+            val = _mx.mul(base, md)
+        elif ax == 0:
+            rows = big.shape[0]
+            base = unfolding_mx(big, rows)
+            val = _mx.mul(md, base)
+        else:
+            continue
+        if r.ndim == 2:
+            r.tags['mx'] = val
+        else:
+            r.tags['mx_unf'] = (val, rows)
+        return
+
+
+def unfolding_mx(a, rows):
+    """matrix expression of the matricisation of `a` with `rows` rows (leading axes | rest)"""
+    from . import mx as _mx
+    if a.ndim == 2 and sz_eq(a.shape[0], rows):
+        return _mx.of(a)
+    u = a.tags.get('mx_unf')
+    if u is not None and sz_eq(u[1], rows):
+        return u[0]
+    root = a
+    while root.tags.get('is_reshape') and root.parents:
+        root = root.parents[0]
+    CTX.keep.append(root)
+    return _mx.src(('unf', id(root), str(Size.of(rows, CTX.atoms))))
+
+
+def mx_after_contract(r, a, b, ax_a, ax_b):
+    """matrix x matrix, matrix x (first axis of a tensor), (last axis of a tensor) x matrix: the result's unfolding is the product of the unfoldings"""
+    from . import mx as _mx
+    if len(ax_a) != 1:
+        return
+    i, j = ax_a[0], ax_b[0]
+    if a.ndim == 2 and b.ndim == 2:
+        ma = _mx.of(a) if i == 1 else _mx.T(_mx.of(a))
+        mb = _mx.of(b) if j == 0 else _mx.T(_mx.of(b))
+        r.tags['mx'] = _mx.mul(ma, mb)
+    elif a.ndim == 2 and b.ndim > 2 and j == 0:
+        ma = _mx.of(a) if i == 1 else _mx.T(_mx.of(a))
+        r.tags['mx_unf'] = (_mx.mul(ma, unfolding_mx(b, b.shape[0])), r.shape[0])
+    elif b.ndim == 2 and a.ndim > 2 and i == a.ndim - 1:
+        mb = _mx.of(b) if j == 0 else _mx.T(_mx.of(b))
+        rows = sz_prod(a.shape[:-1])
+        r.tags['mx_unf'] = (_mx.mul(unfolding_mx(a, rows), mb), rows)
+    if r.ndim == 2 and 'mx' in r.tags and 'orth' not in r.tags:
+        if _mx.left_isometry(r.tags['mx']):
+            r.tags['orth'] = 'LO'
+        elif _mx.right_isometry(r.tags['mx']):
+            r.tags['orth'] = 'RO'
 
 
 def orth_after_contract(r, a, b, ax_a, ax_b, ra, rb):
